@@ -173,12 +173,12 @@ EXACT_QUAT = ([(0.0, 0.0, 0.0, 1.0), (0.0, 0.0, 0.0, -1.0), (1.0, 0.0, 0.0, 0.0)
 EXACT_LIN = [0.0, 1.0, -1.0, 2.0, -0.5, 1024.0, -3.0]
 
 
-def element(r, group, angle_only=None, lin_only=None, norm="valid"):
+def element(r, group, angle_only=None, lin_only=None, norm="valid", hemi_only=None):
     """A group element in manif's coefficient order.  norm: 'exact' | 'valid' (within the
     acceptance threshold) | 'any' (also outside)."""
     g = GROUPS[group]
     out, tags = [], []
-    exact = (angle_only is None or "exact" in angle_only) and r.random() < 0.12
+    exact = (angle_only is None or "exact" in angle_only) and hemi_only is None and r.random() < 0.12
     for kind, n in g["rep"]:
         if exact:
             if kind == "complex":
@@ -205,7 +205,7 @@ def element(r, group, angle_only=None, lin_only=None, norm="valid"):
             q = [s * d[0], s * d[1], s * d[2], w]
             nn = math.sqrt(sum(x * x for x in q))
             q = [x / nn for x in q]
-            hemi = r.choice(["w+", "w+", "w-"])
+            hemi = hemi_only or r.choice(["w+", "w+", "w-"])
             if hemi == "w-":
                 q = [-x for x in q] if q[3] > 0 else q
             elif q[3] < 0:
